@@ -43,6 +43,10 @@ pub struct PollCase {
     /// what the other set); bit 1: obtain the device-authorization response over the HTTP path instead of from a value
     #[serde(default)]
     pub glue: u8,
+    /// REAL time (ms) every HTTP exchange takes, on top of the virtual latency: the waits must not depend on the wall
+    /// clock (only two cases per run use it: they cost seconds)
+    #[serde(default)]
+    pub real_latency_ms: u64,
 }
 
 const NS: i128 = 1_000_000_000;
@@ -213,6 +217,7 @@ impl PollCase {
             dt
         };
         let script = self.script.clone();
+        let real_ms = self.real_latency_ms;
         let lat = self.latency_ms as i128 * 1_000_000;
         let w_http = world.clone();
         let on_call = move |r: HttpRequest| -> Result<HttpResponse, FakeErr> {
@@ -226,6 +231,9 @@ impl PollCase {
                 Some(f) => *f == fp,
             };
             w.events.push(format!("q{}", same as u8));
+            if real_ms > 0 {
+                std::thread::sleep(Duration::from_millis(real_ms));
+            }
             w.elapsed_ns = w.elapsed_ns.saturating_add(lat);
             let i = w.calls;
             w.calls += 1;
@@ -328,7 +336,15 @@ fn expected_outcome(kind: u8) -> &'static str {
 impl CaseInput for PollCase {
     const OP: &'static str = "poll";
 
-    fn generate(r: &mut Rng, _idx: u64) -> Self {
+    fn generate(r: &mut Rng, idx: u64) -> Self {
+        if idx == 2 || idx == 3 {
+            // two slow exchanges in real time (1.1 s each), blocking and future-based: pending, slow_down, success
+            return PollCase {
+                variant: (idx % 2) as u8, interval: Some(Some(5)), expires_in: 600, timeout: None, max_backoff: None,
+                script: vec![0, 1, 3], t0_ns: 1_700_000_000 * NS, clock_mode: 0, offsets_ns: vec![], latency_ms: 0,
+                pend_http: 1, pend_sleep: 1, bad_uri: false, glue: 0, real_latency_ms: 1100,
+            };
+        }
         let n = *r.pick(&[0u64, 1, 1, 2, 3, 4, 6, 9]);
         let mut script: Vec<u8> = (0..n).map(|_| *r.pick(&[0u8, 0, 0, 1, 1, 1, 2, 2, 2, 20, 21, 22, 23, 24])).collect();
         script.push(*r.pick(&[3u8, 3, 3, 4, 5, 6, 7, 8, 9, 10, 11, 12, 13, 14, 15, 16]));
@@ -398,6 +414,7 @@ impl CaseInput for PollCase {
             pend_sleep: r.below(4) as u32,
             bad_uri: r.chance(1, 25),
             glue: r.below(4) as u8,
+            real_latency_ms: 0,
         }
     }
 
@@ -444,6 +461,7 @@ impl CaseInput for PollCase {
                         pend_sleep: (ei % 2) as u32,
                         bad_uri: false,
                         glue: (ei % 4) as u8,
+                        real_latency_ms: 0,
                     });
                 }
             }
@@ -612,6 +630,10 @@ impl CaseInput for PollCase {
 
     fn shrinks(&self) -> Vec<Self> {
         let mut v = Vec::new();
+        if self.real_latency_ms > 0 {
+            // every re-execution costs seconds of real time: the case is small already
+            return v;
+        }
         for i in 0..self.script.len().saturating_sub(1) {
             let mut c = self.clone();
             c.script.remove(i);
